@@ -53,8 +53,11 @@ type verifRequest struct {
 	MirrorPort int      `json:"mirror_port"`
 	// MirrorWorkers > 0: what the workers queued for mirroring goes through the real dispatcher with that many
 	// mirror workers (the configuration a collector runs with) instead of through one mirror function
-	MirrorWorkers int               `json:"mirror_workers"`
-	Phases        [][]verifDatagram `json:"phases"`
+	MirrorWorkers int `json:"mirror_workers"`
+	// MirrorLive (with MirrorWorkers > 0): the dispatcher reads the workers' mirror queue for the whole request, while
+	// the phases run (the collector's own wiring), instead of being fed after each phase
+	MirrorLive bool              `json:"mirror_live"`
+	Phases     [][]verifDatagram `json:"phases"`
 	// max-udp-size of the protocols other than Proto (0 = same as UDPSize)
 	OtherUDPSize int `json:"other_udpsize"`
 	// Churn > 0: after every Churn-th datagram of a phase one running worker of Proto's pipeline is told to
@@ -71,7 +74,8 @@ type verifRequest struct {
 	Env    map[string]string `json:"env"`
 	Config *string           `json:"config"`
 	// ConfigVia: how the path given to -config reaches the file: "" (plain path) | "symlink" (a link to the file) |
-	// "dirlink" (through a linked directory) | "unclean" (a path with . and .. components)
+	// "dirlink" (through a linked directory) | "unclean" (a path with . and .. components) | "bare" (the file name alone,
+	// relative to the working directory) | "relative" (./name)
 	ConfigVia string `json:"config_via"`
 }
 
@@ -151,6 +155,19 @@ func verifPipeline(req *verifRequest) (resp verifResponse) {
 	sFlowMirrorEnabled = req.Mirror && req.Proto == "sflow"
 
 	ix, n9, n5, sf := NewIPFIX(), NewNetflowV9(), NewNetflowV5(), NewSFlow()
+
+	if req.Mirror && req.MirrorWorkers > 0 && req.MirrorLive {
+		switch req.Proto {
+		case "ipfix":
+			opts.IPFIXMirrorAddr, opts.IPFIXMirrorPort, opts.IPFIXMirrorWorkers = req.MirrorDst, req.MirrorPort, req.MirrorWorkers
+			go mirrorIPFIXDispatcher(ipfixMCh)
+		case "sflow":
+			opts.SFlowMirrorAddr, opts.SFlowMirrorPort, opts.SFlowMirrorWorkers = req.MirrorDst, req.MirrorPort, req.MirrorWorkers
+			go mirrorSFlowDispatcher(sFlowMCh)
+		}
+		// the dispatcher switches mirroring on itself once its workers run
+		time.Sleep(10 * time.Millisecond)
+	}
 
 	// dispatchers of this request (mirror_workers > 0), started with its first phase
 	var (
@@ -317,7 +334,10 @@ func verifPipeline(req *verifRequest) (resp verifResponse) {
 			pr.Others[name] = *published[name]
 		}
 		// what the workers queued for mirroring goes through the real dispatcher and its workers ...
-		if req.Mirror && req.MirrorWorkers > 0 {
+		if req.Mirror && req.MirrorWorkers > 0 && req.MirrorLive {
+			// the dispatcher has been reading the queue all along
+			time.Sleep(20 * time.Millisecond)
+		} else if req.Mirror && req.MirrorWorkers > 0 {
 			switch req.Proto {
 			case "ipfix":
 				if dispIPFIX == nil {
@@ -438,6 +458,19 @@ func verifOptions(req *verifRequest, tmp string) (resp verifResponse) {
 				return
 			}
 			file = filepath.Join(link, "vflow.conf")
+		case "bare", "relative":
+			// a path relative to the working directory: the bare file name, or ./name
+			if cwd, err := os.Getwd(); err == nil {
+				defer os.Chdir(cwd)
+			}
+			if err := os.Chdir(tmp); err != nil {
+				resp.Error = err.Error()
+				return
+			}
+			file = "vflow.conf"
+			if req.ConfigVia == "relative" {
+				file = "./vflow.conf"
+			}
 		case "unclean":
 			os.MkdirAll(filepath.Join(tmp, "x"), 0755)
 			file = tmp + "/./x/../vflow.conf"
